@@ -226,3 +226,18 @@ impl<'de, const N: usize> serde::Deserialize<'de> for ChaChaState<N> {
 
 #[cfg(test)]
 mod tests;
+
+// Verification hook (off unless built with `--cfg casualx_urandom_verif`): exposes one batch of the
+// portable back end, which is otherwise never compiled on x86 targets.
+#[cfg(casualx_urandom_verif)]
+#[path = "chacha/slp.rs"]
+mod verif_slp;
+
+#[cfg(casualx_urandom_verif)]
+#[doc(hidden)]
+pub fn verif_slp_block<const N: usize>(seed: [u32; 8], counter: u64, stream: u64) -> ([[u32; 16]; CN], u64) {
+	let mut state = ChaChaState::<N>::new(seed, counter, stream);
+	let mut out = [[0u32; 16]; CN];
+	verif_slp::block(&mut state, &mut out);
+	(out, state.get_counter())
+}
